@@ -23,7 +23,7 @@ from harness import core
 
 PROP = 'C06'
 MODULE = 'Props.C06'
-THEOREMS = ['C06_dump_on_every_outcome', 'C06_flush_before_dump_would_lose_results',
+THEOREMS = ['C06_dump_on_every_outcome', 'C06_view_agrees_with_file', 'C06_flush_before_dump_would_lose_results',
             'C06_final_dump_with_periodic_dumps', 'C06_wrapper_windows_transparent',
             'C06_unwindowed_segment_would_be_lost', 'C06_builtin_mode_records_profiled_sections', 'C06_content',
             'C06_content_closed_stream', 'C06_content_nonvacuous', 'C06_explicit_atexit_partial',
@@ -37,12 +37,29 @@ MODES = ['l', 'lp', 'b', 'plain', 'lm', 'pm', 'explicit']
 TICK = 100
 # how the program leaves its standard streams when it ends
 OUTS = ['ok', 'none', 'closed', 'unwritable', 'errnone']
-OUTCODE = {'ok': 0, 'errnone': 0, 'none': 1, 'closed': 2, 'unwritable': 2}
+OUTCODE = {'ok': 0, 'errnone': 0, 'none': 1, 'closed': 2, 'unwritable': 2, 'file': 3, 'stringio': 3, 'tee': 3}
+# stdout rebound to a working stream and not restored (used with the -l -v modes)
+REBOUND = ['file', 'stringio', 'tee']
+TEEMOD = 'teemod_c06'
+TEE_TEXT = '''class Tee:
+    """a logger installed as sys.stdout: keeps a copy and passes everything on"""
+    def __init__(self, stream):
+        self.stream = stream
+        self.copy = []
+
+    def write(self, text):
+        self.copy.append(text)
+        return self.stream.write(text)
+
+    def flush(self):
+        self.stream.flush()
+'''
 F_EXPL = 'C06-explicit-show-needs-stdout'
 
 STALE = 'stale results of an earlier run\n'
 
 HEADER = '''import sys, contextlib, threading
+import teemod_c06
 _LOCK = threading.RLock()      # re-entrant: with-blocks nest, also across calls
 K = int(sys.argv[1]); KIND = sys.argv[2]; DECO = sys.argv[3]; OUT = sys.argv[4]
 SHOWAT = int(sys.argv[5]) if len(sys.argv) > 5 else 0     # explicit mode: an intermediate profile.show() at that statement
@@ -58,6 +75,13 @@ elif OUT == 'unwritable':
     sys.stdout = open(__file__)
 elif OUT == 'errnone':
     sys.stderr = None
+elif OUT == 'file':
+    sys.stdout = open('progress.log', 'w')
+elif OUT == 'stringio':
+    import io
+    sys.stdout = io.StringIO()
+elif OUT == 'tee':
+    sys.stdout = teemod_c06.Tee(sys.stdout)
 """
 if DECO == 'explicit':
     from line_profiler import profile as deco
@@ -216,6 +240,8 @@ def oracle(base, prog, k, kind, out='ok'):
     f = os.path.join(d, prog['file'])
     with open(f, 'w') as fh:
         fh.write(prog['text'])
+    with open(os.path.join(d, TEEMOD + '.py'), 'w') as fh:
+        fh.write(TEE_TEXT)
     env = dict(os.environ, PYTHONPATH=str(core.VERIF), PYTHONDONTWRITEBYTECODE='1', PYTHONHASHSEED='0')
     env.pop('LINE_PROFILE', None)
     r = sub([core.PY, '-m', 'harness.drivers.c06_oracle', prog['file'], str(k), kind, out], d, env)
@@ -250,6 +276,10 @@ def mode_cmd(mode, prog, k, kind, out='ok', showat=0, waitat=0):
         return kp + ['-l', f] + tail + ['builtin', out], f + '.lprof', {}
     if mode == 'li':
         return kp + ['-l', '-i', '1', f] + tail + ['builtin', out, '0', str(waitat), f + '.lprof'], f + '.lprof', {}
+    if mode == 'lv':
+        return kp + ['-l', '-v', f] + tail + ['builtin', out], f + '.lprof', {}
+    if mode == 'lvp':
+        return kp + ['-l', '-v', '-p', TEEMOD, f] + tail + ['builtin', out], f + '.lprof', {}
     if mode == 'lp':
         return kp + ['-l', '-p', f, f] + tail + ['nodeco', out], f + '.lprof', {}
     if mode == 'b':
@@ -271,6 +301,8 @@ def run_case(impl, base, idx, c, progs):
     os.makedirs(d)
     with open(os.path.join(d, prog['file']), 'w') as fh:
         fh.write(prog['text'])
+    with open(os.path.join(d, TEEMOD + '.py'), 'w') as fh:
+        fh.write(TEE_TEXT)
     cmd, outfile, extra = mode_cmd(c['mode'], prog, c['k'], c['kind'], c.get('out', 'ok'), c.get('showat', 0), c.get('waitat', 0))
     with open(os.path.join(d, outfile), 'w') as fh:       # what an earlier run left behind under the same name
         fh.write(STALE)
@@ -284,7 +316,7 @@ def run_case(impl, base, idx, c, progs):
 
 
 def regset(mode, prog):
-    if mode in ('l', 'li', 'lm', 'explicit'):
+    if mode in ('l', 'li', 'lm', 'explicit', 'lv', 'lvp'):
         return list(prog['deco'])
     return list(range(prog['nfun'])) + [TICK]
 
@@ -331,6 +363,26 @@ def impl_counts(mode, prog, loaded):
     return got, extra
 
 
+def parse_view(text):
+    """hits shown by a `kernprof -l -v` report on stdout: {(file, function, line): hits > 0}, None without a report"""
+    if 'Timer unit:' not in text:
+        return None
+    got, fn, name = {}, None, None
+    for line in text[text.index('Timer unit:'):].splitlines():
+        m = re.match(r'File: (.*)$', line)
+        if m:
+            fn = os.path.basename(m.group(1))
+            continue
+        m = re.match(r'Function: (\S+) at line \d+$', line)
+        if m:
+            name = m.group(1)
+            continue
+        m = re.match(r'\s*(\d+)\s+(\d+)\s+[-+.\de]+\s+[-+.\de]+\s+[-+.\de]+', line)
+        if m and fn and name and int(m.group(2)):
+            got[(fn, name, int(m.group(1)))] = int(m.group(2))
+    return got
+
+
 def analyse(res_case, loaded, prog, ex, ended):
     """python-side property predicate -> (list of failure strings, observation dict)"""
     c, r = res_case['c'], res_case['r']
@@ -339,7 +391,7 @@ def analyse(res_case, loaded, prog, ex, ended):
     wrote = [l for l in r['out'].splitlines() if l.startswith('Wrote profile results to ')]
     want_line = 'Wrote profile results to ' + res_case['outname']
     out = c.get('out', 'ok')
-    visible = out in ('ok', 'errnone')        # can kernprof's closing lines be seen on the captured stdout?
+    visible = out in ('ok', 'errnone', 'tee')  # can kernprof's closing lines be seen on the captured stdout?
     dumps = sum(1 for l in wrote if l == want_line) if visible else int(loaded['exists'] and not loaded.get('stale'))
     if c.get('showat'):
         dumps -= 1          # the program's own intermediate show(); what is left is the exit hook's
@@ -376,12 +428,26 @@ def analyse(res_case, loaded, prog, ex, ended):
             fails.append('explicit mode printed no report on stdout')
         if res_case['ref'] and r['rc'] != res_case['ref']['rc']:
             fails.append('exit status %r differs from the unprofiled run %r' % (r['rc'], res_case['ref']['rc']))
+    view = None
+    if mode in ('lv', 'lvp'):
+        view = parse_view(r['out'])
+        filed = {}
+        for ent in (loaded['entries'] if loaded['ok'] else []):
+            for line, hits in ent[3]:
+                if hits:
+                    filed[(ent[0], ent[2], line)] = hits
+        if view is None:
+            fails.append('-v: no report arrived on the standard output of kernprof (the program left sys.stdout %s)' % out)
+        elif loaded['ok'] and view != filed:
+            diff = {str(k): (view.get(k), filed.get(k)) for k in set(view) | set(filed) if view.get(k) != filed.get(k)}
+            fails.append('-v: the report differs from the written file: {key: (report, file)} = %r' % diff)
     if c.get('waitat') and 'WAITED True' not in r['out']:
         fails.append(('INFRA: the periodic dump was not seen by the program: %r' % r['out'][-200:], 'infra'))
     if c['kind'] == 'none' and ('END %d' % prog['N']) not in r['out']:
         fails.append('the program did not run to its end: %r' % r['out'][-200:])
     fails = [f if isinstance(f, tuple) else (f, None) for f in fails]
-    return fails, dict(dumps=dumps, got=got, rc=r['rc'])
+    return fails, dict(dumps=dumps, got=got, rc=r['rc'], view_seen=int(view is not None),
+                       view_agrees=int(view is not None and loaded['ok'] and not any(f[0].startswith('-v:') for f in fails)))
 
 
 # ---------------------------------------------------------------------------------
@@ -494,6 +560,15 @@ def make_cases(rnd, tier, progs):
                     waitat = rnd.randrange(NPRE + 1, prog['N'] - 3)
                     k = 0 if kind == 'none' else rnd.randrange(waitat + 1, prog['N'] + 1)
                     cases.append(dict(p=pi, k=k, kind=kind, mode='li', waitat=waitat))
+        # kernprof -l -v (also with an auto-profiled helper module): the program ends with sys.stdout untouched /
+        # rebound to a log file, a StringIO, a tee object of the helper module; the report must reach the real
+        # stdout and agree with the file
+        if not prog['gen']:
+            for mode in ('lv', 'lvp'):
+                for out in ['ok'] + REBOUND:
+                    for _ in range(1 if tier == 'quick' else 3):
+                        kind = rnd.choice(KINDS)
+                        cases.append(dict(p=pi, k=0 if kind == 'none' else rnd.choice(ks), kind=kind, mode=mode, out=out))
         # the program ends with its standard streams closed / replaced
         for mode in pmodes:
             for out in OUTS[1:]:
@@ -596,7 +671,11 @@ def run(tier, seed):
                     o = obs_all[i]
                     rc = o['rc'] if isinstance(o['rc'], int) else -99
                     regl = '[' + '; '.join(str(x) for x in regset(c['mode'], prog)) + ']%Z'
-                    if c['mode'] == 'explicit':
+                    if c['mode'] in ('lv', 'lvp'):
+                        rowtxt.append('(view_case_ok %s %d %d %s %s (%d)%%Z %d %d)' % (
+                            exdefs[key], KCODE[c['kind']], OUTCODE[key[2]], regl, coq_hits(o['got']), rc,
+                            o['view_seen'], o['view_agrees']))
+                    elif c['mode'] == 'explicit':
                         rowtxt.append('(explicit_case_ok 100 FULL %s (%d)%%Z %d %d %s %s %d)' % (
                             exdefs[key], m, KCODE[c['kind']], OUTCODE[key[2]], regl, coq_hits(o['got']), o['dumps']))
                     else:
@@ -681,6 +760,7 @@ def run(tier, seed):
                                  C06_explicit_atexit_partial=sum(1 for r in rs if r['c']['mode'] == 'explicit' and OUTCODE[r['c'].get('out', 'ok')] == 0),
                                  stdout_unusable_at_end=sum(1 for r in rs if OUTCODE[r['c'].get('out', 'ok')] != 0),
                                  C06_final_dump_with_periodic_dumps=sum(1 for r in rs if r['c']['mode'] == 'li'),
+                                 C06_view_agrees_with_file=sum(1 for r in rs if r['c']['mode'] in ('lv', 'lvp')),
                                  C06_wrapper_windows_transparent_generator_programs=sum(1 for r in rs if progs[r['c']['p']]['gen'])),
         samples=[dict(case=rs[i]['c'], impl=brief(rs[i], obs_all[i])) for i in (0, len(rs) // 2, len(rs) - 1)],
         translated=['line_profiler/explicit_profiler.py::GlobalProfiler methods -> Gen/GlobalProfiler.v (C06_explicit_atexit)'],
